@@ -580,6 +580,26 @@ example : skipDuplicates [⟨"a".toList, "statement".toList, some 1, none, 1⟩,
     = [⟨"a".toList, "statement".toList, some 1, none, 1⟩, ⟨"m".toList, "module".toList, none, some "/r/m.py".toList, 1⟩] := by
   decide
 
+/-- the loop of `_try_to_skip_duplicates` as the translator found it: results are compared by the
+tree-name object (identity) and, for modules, by `module_path` - nothing coarser (a key made of the
+spelling and the position would merge same-placed definitions of two files) -/
+theorem skip_duplicates_src_key :
+    JediModel.Gen.C19.skipDuplicatesKey = ["definition._name.tree_name", "definition.module_path"] := by
+  decide
+
+/-- **no definition is lost to `_try_to_skip_duplicates`**: whatever else the result list holds
+(other files defining the same spelling at the same line and column, earlier duplicates, modules),
+every tree name that occurs in it as a non-module result survives once. -/
+theorem skip_duplicates_complete (l : List Nm) (d : Nm) (t : Nat) (hd : d ∈ l)
+    (hty : d.type ≠ "module".toList) (ht : d.treeId = some t) :
+    ∃ d' ∈ skipDuplicates l, d'.treeId = some t :=
+  skipLoop_keeps t [] [] l d hd hty ht (by simp)
+
+/-- two sibling modules written from one template: `limit = 1` at line 1 of `a.py` (token 1) and
+of `b.py` (token 2) - both definitions are reported -/
+example : (skipDuplicates [⟨"limit".toList, "statement".toList, some 1, none, 1⟩,
+    ⟨"limit".toList, "statement".toList, some 2, none, 1⟩]).length = 2 := by decide
+
 /-- `_try_to_skip_duplicates` only drops results -/
 theorem skip_duplicates_sublist (l : List Nm) : (skipDuplicates l).Sublist l :=
   skipLoop_sublist [] [] l
